@@ -67,6 +67,25 @@ OP_CLASSES = {'SetValue': prov_ops.SetValueOperation, 'SetString': prov_ops.SetS
 KIND_OF_CLASS = {v.__name__: k for k, v in OP_CLASSES.items()}
 
 
+
+RAISE_VARIANTS = [
+    (RuntimeError, 'vf: handler of {op} raises'), (ValueError, 'a <b> & c ]]> "q"'), (RuntimeError, 'device said: \x00\x01\x02\x1f'),
+    (KeyError, '{op}'), (RuntimeError, ''), (OSError, 'fehler: \u00e4\u4e2d\U0001F600'), (RuntimeError, 'lone surrogate \ud800'),
+    (RuntimeError, 'x' * 5000), (ValueError, 'line1\nline2\r\n\ttabbed'), (RuntimeError, '\x7f\x85\ufffe\uffff'),
+]
+
+
+def urigen_class(text):
+    if not text:
+        return 'empty'
+    if any(ord(c) < 0x20 and c not in '\t\n\r' for c in text) or any(0xD800 <= ord(c) <= 0xDFFF or ord(c) in (0xFFFE, 0xFFFF) for c in text):
+        return 'not_xml_chars'
+    if any(c in '<&>' for c in text):
+        return 'markup'
+    if any(ord(c) > 127 for c in text):
+        return 'non_ascii'
+    return 'long' if len(text) > 1000 else 'plain'
+
 class Watchdog(Exception):
     pass
 
@@ -212,6 +231,7 @@ class Rig:
         self.mdib = self.world.mdib
         self.tap = Tap(self.world)
         self.handler_log: dict[str, tuple] = {}  # request MessageID -> ('raise', repr) | ('return', state) ; + mode
+        self._raise_no = 0
         self.gates: dict[str, threading.Event] = {}
         self.entered = defaultdict(int)
         self.sync_dispatch = sync_dispatch
@@ -329,7 +349,12 @@ class Rig:
 
         def handler(params):
             if state is None:
-                raise RuntimeError(f'vf: handler of {params.operation_instance.handle} raises')
+                # what a handler may put into its exception: plain text, markup, control characters / NUL (echoed device bytes), non-ASCII,
+                # a lone surrogate, nothing at all, a long text; different exception types
+                self._raise_no += 1
+                exc_cls, text = RAISE_VARIANTS[self._raise_no % len(RAISE_VARIANTS)]
+                self.ctx.count(f'raise.variant.{exc_cls.__name__}.{urigen_class(text)}')
+                raise exc_cls(text.replace('{op}', params.operation_instance.handle))
             return ExecuteResult(params.operation_instance.operation_target_handle, state)
         return handler
 
